@@ -19,7 +19,7 @@ use tls_parser::{
     CIPHERS,
 };
 
-pub const RULE: &str = "exhaustive and seed-independent: every row of scripts/tls-ciphersuites.txt x 10 columns against the built-in registry; every golden-snapshot row x 10 columns; all 65536 ids x 4 lookup routes (+ Debug of the id); every registry name through from_name and TryFrom<&str>, plus per name every proper prefix, appended/prepended characters, lower/upper case, every single-character change and deletion, adjacent-token transposition, and every token replaced by every token of the registry vocabulary; derived sizes on every row and on synthetic suites covering every enc x mac variant; name-token implications on every row. distinct_nontrivial counts distinct (family, parameter tuple / lookup outcome / perturbation kind x outcome) classes";
+pub const RULE: &str = "exhaustive and seed-independent: every row of scripts/tls-ciphersuites.txt x 10 columns against the built-in registry; every golden-snapshot row x 10 columns; all 65536 ids x 4 lookup routes (+ Debug of the id); every registry name through from_name and TryFrom<&str>, plus per name every proper prefix, appended/prepended characters, lower/upper case, every single-character change and deletion, non-ASCII look-alikes at every position (same low byte / low 7 bits, fullwidth, case-folding and homoglyph characters) and inserted invisible characters, adjacent-token transposition, and every token replaced by every token of the registry vocabulary; derived sizes on every row and on synthetic suites covering every enc x mac variant; name-token implications on every row. distinct_nontrivial counts distinct (family, parameter tuple / lookup outcome / perturbation kind x outcome) classes";
 pub const ASSUMPTIONS: &[&str] = &[
     "scripts/tls-ciphersuites.txt is read at run time from the repository; the registry was compiled from the same tree (a stale build shows up as cell mismatches)",
     "golden/ciphersuites.golden is the snapshot of today's assignments (first 10 columns of every row); rows only present in the registry are counted (rows.not_in_golden), not judged",
@@ -978,6 +978,51 @@ pub fn run(ctx: &mut Ctx) {
             c3.remove(p);
             judge_name(ctx, &names, "char-deleted", &c3.iter().collect::<String>());
         }
+        // non-ASCII look-alikes at every position: code points whose low byte / low 7 bits equal the
+        // ASCII character (lossy casts), fullwidth forms, characters that case-fold to it, and
+        // invisible characters inserted after it
+        for p in 0..ch.len() {
+            let b = ch[p] as u32;
+            let mut alts: Vec<char> = Vec::new();
+            for base in [0x80u32, 0x100, 0x400, 0x4e00, 0xff00, 0x1_f300, 0x10_ff00] {
+                if let Some(c) = char::from_u32(base | b) {
+                    if c != ch[p] {
+                        alts.push(c);
+                    }
+                }
+            }
+            if (0x21..0x7f).contains(&b) {
+                if let Some(c) = char::from_u32(0xff00 + b - 0x20) {
+                    alts.push(c);
+                }
+            }
+            match ch[p] {
+                'K' => alts.push('\u{212a}'),
+                'S' => alts.push('\u{17f}'),
+                'I' => alts.extend(['\u{131}', '\u{130}']),
+                'A' => alts.extend(['\u{391}', '\u{410}']),
+                'E' => alts.extend(['\u{395}', '\u{415}']),
+                'H' => alts.extend(['\u{397}', '\u{41d}']),
+                'T' => alts.extend(['\u{3a4}', '\u{422}']),
+                'C' => alts.push('\u{421}'),
+                'M' => alts.extend(['\u{39c}', '\u{41c}']),
+                'O' => alts.extend(['\u{39f}', '\u{41e}']),
+                '_' => alts.extend(['\u{ff3f}', '\u{2017}', '\u{a0}']),
+                _ => {}
+            }
+            for a in alts {
+                let mut c2 = ch.clone();
+                c2[p] = a;
+                judge_name(ctx, &names, "unicode-lookalike", &c2.iter().collect::<String>());
+            }
+            if p % 4 == (i as usize) % 4 {
+                for ins in ['\u{200b}', '\u{301}', '\u{feff}', '\u{ad}'] {
+                    let mut c2 = ch.clone();
+                    c2.insert(p + 1, ins);
+                    judge_name(ctx, &names, "invisible-inserted", &c2.iter().collect::<String>());
+                }
+            }
+        }
         // tokens: transposition of adjacent tokens, and every token replaced by every vocabulary token
         let toks: Vec<&str> = name.split('_').collect();
         for p in 0..toks.len().saturating_sub(1) {
@@ -1011,7 +1056,7 @@ pub fn run(ctx: &mut Ctx) {
             }
         }
         if ctx.wants_sample() {
-            ctx.sample(json!({"name": name, "perturbations": "prefix/suffix/append/prepend/case/char-changed/char-deleted/tokens-transposed/token-replaced/neighbour-splice",
+            ctx.sample(json!({"name": name, "perturbations": "prefix/suffix/append/prepend/case/char-changed/char-deleted/unicode-lookalike/invisible-inserted/tokens-transposed/token-replaced/neighbour-splice",
                               "vocabulary_tokens": vocab.len()}));
         }
     });
